@@ -231,6 +231,52 @@ def gen_p_only_island(rng):
             "pick": rng.getrandbits(30)}
 
 
+def gen_thermal_failure(rng):
+    """directed family: the hydraulic stage converges, the thermal stage fails in one of its possible places
+    (connectivity identification: no temperature feed / feed out of service; check_infeed_number: a source
+    without temperature feeds next to the ext grid; NaN in the thermal solve; thermal iteration budget), in modes sequential,
+    bidirectional and heat, on a fresh net or after a successful run"""
+    kind = rng.choice(["p_only", "t_feed_oos", "extra_infeed", "nan_u", "nan_tfeed", "therm_budget"])
+    n = rng.randint(3, 5) if kind != "extra_infeed" else rng.randint(4, 5)
+    md, d = rng.choice([0.3, 0.5, 1.0]), rng.choice([60., 80., 100.])
+    ops = [["create_junction", {"pn_bar": 4.0, "tfluid_k": rng.choice([300., 330.]), "index": i}] for i in range(n)]
+    for i in range(1, n):
+        a = rng.randrange(0, i)
+        ops.append(["create_pipe_from_parameters", {"from_junction": a, "to_junction": i, "length_km": rng.choice([0.1, 0.3]),
+                                                    "inner_diameter_mm": d, "k_mm": 0.1, "u_w_per_m2k": rng.choice([1.0, 5.0]),
+                                                    "text_k": 283.15, "sections": rng.choice([1, 2]), "index": i - 1}])
+    if n > 3 and rng.random() < 0.5 and kind != "extra_infeed":
+        ops.append(["create_pipe_from_parameters", {"from_junction": 1, "to_junction": n - 1, "length_km": 0.2, "inner_diameter_mm": d,
+                                                    "k_mm": 0.1, "u_w_per_m2k": 1.0, "text_k": 283.15, "sections": 1, "index": n}])
+    for i in range(1, n):
+        ops.append(["create_sink", {"junction": i, "mdot_kg_per_s": md * (rng.choice([0.5, 1.0]) if kind != "extra_infeed" else 1.0),
+                                    "index": i - 1}])
+    if kind == "p_only":
+        ops.append(["create_ext_grid", {"junction": 0, "p_bar": 4.0, "type": "p", "index": 0}])
+    elif kind == "t_feed_oos":
+        ops.append(["create_ext_grid", {"junction": 0, "p_bar": 4.0, "type": "p", "index": 0}])
+        ops.append(["create_ext_grid", {"junction": rng.randrange(n), "p_bar": 4.0, "t_k": 350.0, "type": rng.choice(["pt", "t"]),
+                                        "in_service": False, "index": 1}])
+    elif kind == "extra_infeed":
+        # a leaf junction injects more than it draws: a second infeed node without a temperature
+        ops.append(["create_ext_grid", {"junction": 0, "p_bar": 4.0, "t_k": 350.0, "type": "pt", "index": 0}])
+        ops.append(["create_source", {"junction": n - 1, "mdot_kg_per_s": 1.5 * md, "index": 0}])
+    else:
+        ops.append(["create_ext_grid", {"junction": 0, "p_bar": 4.0, "t_k": 350.0, "type": "pt", "index": 0}])
+    mut = {"nan_u": "nan_u", "nan_tfeed": "nan_tflow", "therm_budget": "therm_budget"}.get(kind, "none")
+    steps = []
+    if rng.random() < 0.6:                                   # after a successful run ...
+        steps.append({"mut": "none", "mode": "hydraulics" if mut == "none" else rng.choice(["hydraulics", "sequential"]),
+                      "method": rng.choice(["automatic", "constant"])})
+    for _ in range(rng.randint(1, 2)):                       # ... or on the fresh net
+        steps.append({"mut": mut, "mode": rng.choice(["sequential", "sequential", "bidirectional", "heat"]),
+                      "method": rng.choice(["automatic", "constant"])})
+    if rng.random() < 0.4:
+        steps.append({"mut": "none", "mode": "hydraulics", "method": "constant"})
+    return {"spec": {"fluid": "water", "ops": ops}, "profile": "thermal_failure:" + kind, "steps": steps,
+            "pick": rng.getrandbits(30)}
+
+
 BENIGN = ("oos_twin_supply",)       # mutations that add only out-of-service elements
 DRIVER_FUNCS = ("pipeflow.py:newton_raphson", "pipeflow.py:finalize_iteration", "pipeflow.py:set_damping_factor")
 
@@ -263,6 +309,14 @@ def apply_mutation(net, mut, pick):
     elif mut == "tol_tiny":
         opts["tol_res"] = 1e-300
         opts["iter"] = 6
+    elif mut == "therm_budget":
+        opts.update(max_iter_hyd=40, max_iter_therm=1, max_iter_bidirect=1)
+    elif mut == "nan_u":
+        if len(net.pipe):
+            setcol("pipe", "u_w_per_m2k", float("nan"), [net.pipe.index[pick % len(net.pipe)]])
+    elif mut == "nan_text":
+        if len(net.pipe):
+            setcol("pipe", "text_k", float("nan"), [net.pipe.index[pick % len(net.pipe)]])
     elif mut == "no_supply":
         for t in ("ext_grid", "circ_pump_pressure", "circ_pump_mass"):
             setcol(t, "in_service", False)
@@ -397,8 +451,10 @@ def run_scenarios(ctx, n_scen):
     seqs, meta = [], []
     n_calls = 0
     n_directed = max(4, n_scen // 20)
-    for i_sc in range(n_scen + n_directed):
-        sc = gen_scenario(rng, ctx.quick) if i_sc < n_scen else gen_p_only_island(rng)
+    n_thermal = max(21, n_scen // 6)
+    for i_sc in range(n_scen + n_directed + n_thermal):
+        sc = gen_scenario(rng, ctx.quick) if i_sc < n_scen else gen_p_only_island(rng) if i_sc < n_scen + n_directed \
+            else gen_thermal_failure(rng)
         try:
             net = gen.build(sc["spec"])
         except Exception as e:  # noqa: BLE001
@@ -418,6 +474,8 @@ def run_scenarios(ctx, n_scen):
                 in_model = False
             ctx.count("pipeflow:%s:%s" % (mode if mode in MODES else "bad_mode", cls))
             ctx.count("mutation:" + st["mut"])
+            if sc["profile"].startswith("thermal_failure"):
+                ctx.count("%s:%s:%s" % (sc["profile"], mode, cls))
             entry = {"step": st, "options": {k: v for k, v in kw.items() if k != "sol_vec"}, "outcome": cls,
                      "message": "" if exc is None else str(exc)[:160], "converged": conv, "all_results_nan": allnan,
                      "frames": frames[-4:], "newton_runs": [(r["stage"], len(r["iters"]), r.get("conv")) for r in runs]}
@@ -642,11 +700,11 @@ def run(ctx):
         wiring = fallback_wiring()
     import time
     t0 = time.time()
-    driver_correspondence(ctx, 800 if ctx.quick else 12000)
+    driver_correspondence(ctx, 700 if ctx.quick else 12000)
     t1 = time.time()
     run_stage_probes(ctx, wiring)
     t2 = time.time()
-    run_scenarios(ctx, 70 if ctx.quick else 900)
+    run_scenarios(ctx, 60 if ctx.quick else 900)
     ctx.extra["timing_s"] = {"driver": round(t1 - t0, 1), "stage_probes": round(t2 - t1, 1),
                              "pipeflow_sequences": round(time.time() - t2, 1)}
     print("timing: %r" % ctx.extra["timing_s"])
